@@ -49,6 +49,10 @@ try:
         tags = ["-tags", "verif"] if "verif" in src.split("package")[0] or "SimHook" in src else []
         if re.search(r"(?i)run with:?[^\n]*-race", src.split("package")[0]):
             tags = tags + ["-race"]
+        if os.environ.get("VET_RUN"):
+            # Run only the demonstration (one that depends on the state of sync.Pool or on GOMAXPROCS
+            # can be disturbed by the package's other tests).
+            tags = tags + ["-run", os.environ["VET_RUN"]]
         dst = os.path.join(wt, pkg, "zz_" + d)
         shutil.copyfile(os.path.join(out, d), dst)
         rc1, o1 = sh(["go", "test", "-vet=off", "-count=1"] + tags + ["./" + pkg + "/"], wt)
